@@ -140,7 +140,8 @@ def _check_own(ctx):
         ctx.touch(fn)
         ws = header_writes(prog, fn)
         total = sum(n for b, k, n in ws if n is not None)
-        c = prog.consts.get(cname)
+        from .consts import const_id
+        c = prog.consts.get(const_id(prog, *cname.rsplit("::", 1)) or cname)
         hdr = int(c["v"]["int"]) if c and "int" in (c.get("v") or {}) else None
         ctx.check(hdr is not None and all(n is not None for b, k, n in ws) and total == hdr, "full-extent", "header:" + kind,
                   "the %s header initialiser writes %s bytes (%s), the header size is %s" % (kind, total, canon_layout(ws), hdr), where=where(fn))
@@ -174,3 +175,5 @@ def check(ctx):
     from .engine import import_rules
     import_rules(ctx, "c04", {"scan-compensation"})
     import_rules(ctx, "c01", {"lookup-by-full-key", "lookup-result"})
+    # the image is a function of the update history only: read-only calls neither write nor change what a later flush does
+    import_rules(ctx, "c15", {"read-only-no-dirty-store"})
